@@ -218,8 +218,8 @@ class SymDA:
                 if k.start is None and k.step is None:
                     r = r._prefix(d, k.stop)
                     continue
-                if k.start is None and k.stop is None and k.step == -1:
-                    r = r._reverse(d)
+                if k.start is None and k.stop is None and k.step == -1 and isinstance(r.mark, Argsort):
+                    r = r._new(r.term, mark=r.mark[::-1])
                     continue
                 raise Unsupported(f"positional slice {k}")
             if isinstance(k, Argsort):
@@ -698,9 +698,16 @@ class XRFacade:
         if d not in a._dims or d not in b._dims:
             raise ValueError(f"contracted dimension {d!r} missing from an operand")
         shared = [x for x in a._dims if x in b._dims and x != d]
-        if shared:
-            raise Unsupported(f"xr.dot with a shared non-contracted dimension {shared}")
         a._align(b, d)
+        if shared:
+            if len(shared) == 1 and len(a._dims) == 2 and len(b._dims) == 2:
+                m = shared[0]
+                a._align(b, m)
+                ta = a.transpose(d, m).term
+                tb = b.transpose(d, m).term
+                g = tm.dg(tm.mul(tm.Tr(ta), tb))          # sum_d a[d,m] b[d,m] = diag(a^T b)
+                return SymDA(g, (m,), {m: a._ext[m]}, {m: a._cid.get(m)}, a.cplx or b.cplx, a.lazy or b.lazy)
+            raise Unsupported(f"xr.dot with shared non-contracted dimensions {shared}")
         if len(a._dims) != 2 or len(b._dims) != 2:
             raise Unsupported("xr.dot on non 2-d operands")
         ta = a.term if a._dims[1] == d else tm.Tr(a.term)
@@ -735,22 +742,26 @@ class _Linalg:
 
     def __init__(self):
         # identity-compared tokens: the traced code only passes these on to apply_ufunc
-        self.svd = _Token("np.linalg.svd")
-        self.inv = _Token("np.linalg.inv")
-        self.pinv = _Token("np.linalg.pinv")
-        self.eig = _Token("np.linalg.eig")
-        self.norm = _Token("np.linalg.norm")
+        from . import ndlib
+        self.svd = _Token("np.linalg.svd", ndlib.nd_svd)
+        self.inv = _Token("np.linalg.inv", ndlib.nd_inv)
+        self.pinv = _Token("np.linalg.pinv", ndlib.nd_pinv)
+        self.eig = _Token("np.linalg.eig", ndlib.nd_eig)
+        self.norm = _Token("np.linalg.norm", ndlib.nd_norm)
 
     def __getattr__(self, k):
         raise Unsupported("np.linalg." + k)
 
 
 class _Token:
-    def __init__(self, name):
+    def __init__(self, name, impl=None):
         self.__qualname__ = name
         self.__name__ = name
+        self.impl = impl
 
     def __call__(self, *a, **k):
+        if self.impl is not None:
+            return self.impl(*a, **k)
         raise Unsupported(f"direct call of {self.__qualname__} on proxies")
 
     def __repr__(self):
@@ -781,10 +792,25 @@ class NPFacade:
         return all(ok(x) for x in a)
 
     def finfo(self, t):
+        if type(t) is PNum:
+            t = float
         return _np.finfo(t)
+
+    def diag(self, x):
+        from .nd import SymND
+        if isinstance(x, SymND) and x.nd == 1:
+            return SymND(x.term, 2, x.cplx, x.lazy)
+        if isinstance(x, SymND) and x.nd == 2:
+            return SymND(tm.dg(x.term), 1, x.cplx, x.lazy)
+        if self._concrete(x):
+            return _np.diag(x)
+        raise Unsupported("np.diag")
 
     def iscomplexobj(self, x):
         self.used.add("np.iscomplexobj")
+        from .nd import SymND
+        if isinstance(x, SymND):
+            return x.cplx
         if isinstance(x, NDView):
             return x.da.cplx
         if isinstance(x, SymDA):
@@ -793,7 +819,8 @@ class NPFacade:
 
     def sqrt(self, x):
         self.used.add("np.sqrt")
-        if isinstance(x, SymDA):
+        from .nd import SymND
+        if isinstance(x, (SymDA, SymND)):
             return x ** 0.5
         if type(x) is PNum:
             raise Unsupported("sqrt of symbolic scalar")
@@ -813,6 +840,9 @@ class NPFacade:
 
     def argsort(self, x, *a, **k):
         self.used.add("np.argsort")
+        from .nd import SymND, ArgsortND
+        if isinstance(x, SymND) and x.nd == 1 and not a and not k:
+            return ArgsortND(f"argsort({x.term!r})", x.term)
         if isinstance(x, SymDA) and len(x._dims) == 1 and not a and not k:
             return Argsort(f"argsort({x.term!r})", x.term)
         raise Unsupported("np.argsort on this argument")
